@@ -4,7 +4,7 @@
    Primitives are explicit premises: H (Keccak-256 of what a MAC hash absorbed),
    aes_block (macCipher.Encrypt), ks (AES-CTR key stream shared by both sides),
    snappy_enc/snappy_dec, recover (ECDSA public-key recovery), sign. *)
-From AQ Require Import Lib.Bytes Lib.Keccak Rlp.RlpSpec Generated.GenParamsNet Rlp.Typed Generated.GenAquaMsgs Net.Frame Net.FrameIO Net.Discover Net.Limits Net.Handshake Net.Messages Net.ProtoHs Net.NetProofs Net.FrameIOProofs Net.MessagesProofs Net.ProtoHsProofs.
+From AQ Require Import Lib.Bytes Lib.Keccak Rlp.RlpSpec Generated.GenParamsNet Rlp.Typed Generated.GenAquaMsgs Net.Frame Net.FrameIO Net.Discover Net.Limits Net.Handshake Net.Messages Net.ProtoHs Net.DiscState Net.NetProofs Net.FrameIOProofs Net.MessagesProofs Net.ProtoHsProofs Net.DiscStateProofs.
 Local Open Scope N_scope.
 
 (* ---- RLPx frames ---- *)
@@ -342,6 +342,62 @@ Theorem C17_proto_handshake_safe : forall (v : N) (s : hstate), reach false v s 
 Proof. exact proto_handshake_safe. Qed.
 Print Assumptions C17_proto_handshake_safe.
 
+(* ---- discovery as a packet-history state machine (Net/DiscState.v): bond table, pending-reply
+   matcher, expiration, neighbors chunking; `step` handles one event (an authenticated inbound
+   datagram from any id, the node issuing findnode, the clock advancing), `run` a whole history.
+   All statements hold in EVERY state, hence after every history. *)
+Theorem C17_disc_expired_rejected : forall (s : dstate) (from : N) (p : inpkt),
+  pkt_expired s (exp_of p) = true -> step s (EvIn from p) = (s, VExpired, []).
+Proof. exact expired_rejected. Qed.
+Print Assumptions C17_disc_expired_rejected.
+
+(* findnode is answered only to a node with a valid bond (last solicited pong within the bond
+   expiration); otherwise errUnknownNode, nothing sent, nothing changed *)
+Theorem C17_disc_findnode_needs_bond : forall (s : dstate) (from exp : N) (s' : dstate) (v : verdict) (o : list outpkt),
+  step s (EvIn from (InFindnode exp)) = (s', v, o) ->
+  s' = s /\
+  (o <> [] -> has_bond s from = true /\ pkt_expired s exp = false /\ v = VOk) /\
+  (pkt_expired s exp = false -> has_bond s from = false -> v = VUnknownNode /\ o = []).
+Proof. exact findnode_needs_bond. Qed.
+Print Assumptions C17_disc_findnode_needs_bond.
+
+(* a pong / neighbors packet without a matching outstanding request of that sender is
+   errUnsolicitedReply and changes no state *)
+Theorem C17_disc_unsolicited_pong_ignored : forall (s : dstate) (from tok exp : N),
+  pkt_expired s exp = false -> existsb (is_pong_wait from) (d_pending s) = false ->
+  step s (EvIn from (InPong tok exp)) = (s, VUnsolicited, []).
+Proof. exact unsolicited_pong_ignored. Qed.
+Print Assumptions C17_disc_unsolicited_pong_ignored.
+Theorem C17_disc_unsolicited_neighbors_ignored : forall (s : dstate) (from n exp : N),
+  pkt_expired s exp = false -> existsb (is_neigh_wait from) (d_pending s) = false ->
+  step s (EvIn from (InNeighbors n exp)) = (s, VUnsolicited, []).
+Proof. exact unsolicited_neighbors_ignored. Qed.
+Print Assumptions C17_disc_unsolicited_neighbors_ignored.
+
+(* the bond table changes for id only through a live pong from id that carries the token of a ping
+   the node sent to id and is still waiting for *)
+Theorem C17_disc_bond_only_by_solicited_pong : forall (s : dstate) (e : event) (s' : dstate) (v : verdict) (o : list outpkt) (id : N),
+  step s e = (s', v, o) -> bond_time id (d_bonds s') <> bond_time id (d_bonds s) ->
+  exists tok exp, e = EvIn id (InPong tok exp) /\ pkt_expired s exp = false /\
+    existsb (fun p => is_pong_wait id p && match p_expect p with PxPong t => t =? tok | _ => false end) (d_pending s) = true.
+Proof. exact bond_only_by_solicited_pong. Qed.
+Print Assumptions C17_disc_bond_only_by_solicited_pong.
+
+(* every neighbors packet the node sends has at most maxNeighbors (generated: 12) entries — the
+   count for which udp.go's init established that a packet stays under 1280 bytes *)
+Theorem C17_disc_outgoing_neighbors_bounded : forall (s : dstate) (e : event) (s' : dstate) (v : verdict) (o : list outpkt),
+  step s e = (s', v, o) ->
+  Forall (fun x => match x with OutNeighbors _ c => c <= max_neighbors | _ => True end) o.
+Proof. exact outgoing_neighbors_bounded. Qed.
+Print Assumptions C17_disc_outgoing_neighbors_bounded.
+
+(* over every history the pending list holds no more entries than requests (pings, findnodes) the
+   node itself has sent *)
+Theorem C17_disc_pending_bounded : forall (h : list event) (s s' : dstate) (r : list (verdict * list outpkt)),
+  run s h = (s', r) -> lenN (d_pending s') <= lenN (d_pending s) + requests (all_outs r).
+Proof. exact pending_bounded_by_own_requests. Qed.
+Print Assumptions C17_disc_pending_bounded.
+
 (* ---- aqua sub-protocol limits ---- *)
 Theorem C17_gate_rejects_oversize : forall code size,
   protocol_max_msg_size < size -> handle_gate code size = GTooLarge.
@@ -534,3 +590,13 @@ Proof.
   split; [exact handshake_outcomes_v5|split; [exact handshake_outcomes_v4|split; [exact early_set_breaks_it|]]].
   apply (reach_step false 5 hs_init); [apply reach_init|vm_compute; auto].
 Qed.
+
+(* a history: findnode before any bond is refused; a ping makes the node ping back; the pong with that
+   ping's token creates the bond; now findnode is answered; 3700 s later it is refused again *)
+Example C17_example_disc_history :
+  let h := [EvIn 1 (InFindnode 100); EvIn 1 (InPing 100); EvIn 1 (InPong 7 100); EvIn 1 (InPong 0 100);
+            EvIn 1 (InFindnode 100); EvTick 3700; EvIn 1 (InFindnode 5000)] in
+  map fst (snd (run d_init h)) = [VUnknownNode; VOk; VOk; VOk; VOk; VLocal; VUnknownNode] /\
+  nth 1 (map snd (snd (run d_init h))) [] = [OutPong 1; OutPing 1 0] /\
+  nth 4 (map snd (snd (run d_init h))) [] = [OutNeighbors 1 1].
+Proof. vm_compute. repeat split; reflexivity. Qed.
